@@ -164,12 +164,114 @@ template <size_t CAP> static std::string timing(const Args&)
     return join(r);
 }
 
+
+// multi-waiter probes (C15/C16): several threads blocked on the same condition variable, then the events that must wake them.
+// Waiters use a 2 s time-out so that a lost wake-up shows as a late return instead of a hang.  Per scenario the reply holds
+// <trials> <worst return delay ms> <anomalies>; anomalies are counted by the scenario's own rule.
+template <size_t CAP> static std::string wake(const Args& a)
+{
+    using clk = std::chrono::steady_clock;
+    auto ms = [](auto d) { return (long long)std::chrono::duration_cast<std::chrono::milliseconds>(d).count(); };
+    int trials = a.size() > 1 ? int(a[1]) : 5;
+    std::vector<long long> r;
+    {   // W1: k consumers blocked on an empty queue; put one item then close at once: everybody returns promptly, exactly one with the item
+        long long worst = 0, anomalies = 0;
+        for (int t = 0; t < trials; ++t) {
+            queue<int, CAP> q; const int k = 2 + t % 2;
+            std::vector<int> res(k, -1), val(k, -1); std::vector<long long> dt(k, 0);
+            std::vector<std::thread> th; clk::time_point t0;
+            std::atomic<int> ready{0};
+            for (int i = 0; i < k; ++i) th.emplace_back([&, i] { ready++; res[i] = q.get(val[i], 2000ms); dt[i] = ms(clk::now() - t0); });
+            while (ready.load() < k) std::this_thread::yield();
+            std::this_thread::sleep_for(30ms);
+            t0 = clk::now();
+            q.put(42, 0ms); q.close();
+            for (auto& x : th) x.join();
+            int got = 0; for (int i = 0; i < k; ++i) { got += (res[i] == 1 && val[i] == 42); worst = std::max(worst, dt[i]); }
+            if (got != 1) ++anomalies;
+        }
+        r.push_back(trials); r.push_back(worst); r.push_back(anomalies);
+    }
+    {   // W2: two consumers blocked; two puts back to back (capacity permitting): both consumers get an item promptly
+        long long worst = 0, anomalies = 0; int done = 0;
+        if (CAP >= 2) for (int t = 0; t < trials; ++t) {
+            queue<int, CAP> q; std::vector<int> res(2, -1), val(2, -1); std::vector<long long> dt(2, 0);
+            std::vector<std::thread> th; clk::time_point t0; std::atomic<int> ready{0};
+            for (int i = 0; i < 2; ++i) th.emplace_back([&, i] { ready++; res[i] = q.get(val[i], 2000ms); dt[i] = ms(clk::now() - t0); });
+            while (ready.load() < 2) std::this_thread::yield();
+            std::this_thread::sleep_for(30ms);
+            t0 = clk::now();
+            q.put(1, 0ms); q.put(2, 0ms);
+            for (auto& x : th) x.join();
+            for (int i = 0; i < 2; ++i) { worst = std::max(worst, dt[i]); if (res[i] != 1) ++anomalies; }
+            ++done;
+        }
+        r.push_back(done); r.push_back(worst); r.push_back(anomalies);
+    }
+    {   // W3: two producers blocked on a full queue; close: both return false promptly
+        long long worst = 0, anomalies = 0;
+        for (int t = 0; t < trials; ++t) {
+            queue<int, CAP> q; for (size_t i = 0; i < CAP; ++i) q.put(int(i), 0ms);
+            std::vector<int> res(2, -1); std::vector<long long> dt(2, 0);
+            std::vector<std::thread> th; clk::time_point t0; std::atomic<int> ready{0};
+            for (int i = 0; i < 2; ++i) th.emplace_back([&, i] { ready++; res[i] = q.put(100 + i, 2000ms); dt[i] = ms(clk::now() - t0); });
+            while (ready.load() < 2) std::this_thread::yield();
+            std::this_thread::sleep_for(30ms);
+            t0 = clk::now();
+            q.close();
+            for (auto& x : th) x.join();
+            for (int i = 0; i < 2; ++i) { worst = std::max(worst, dt[i]); if (res[i] != 0) ++anomalies; }
+        }
+        r.push_back(trials); r.push_back(worst); r.push_back(anomalies);
+    }
+    {   // W4: two producers blocked on a full queue; two gets back to back: both producers succeed promptly
+        long long worst = 0, anomalies = 0; int done = 0;
+        if (CAP >= 2) for (int t = 0; t < trials; ++t) {
+            queue<int, CAP> q; for (size_t i = 0; i < CAP; ++i) q.put(int(i), 0ms);
+            std::vector<int> res(2, -1); std::vector<long long> dt(2, 0);
+            std::vector<std::thread> th; clk::time_point t0; std::atomic<int> ready{0};
+            for (int i = 0; i < 2; ++i) th.emplace_back([&, i] { ready++; res[i] = q.put(100 + i, 2000ms); dt[i] = ms(clk::now() - t0); });
+            while (ready.load() < 2) std::this_thread::yield();
+            std::this_thread::sleep_for(30ms);
+            t0 = clk::now();
+            int v; q.get(v, 0ms); q.get(v, 0ms);
+            for (auto& x : th) x.join();
+            for (int i = 0; i < 2; ++i) { worst = std::max(worst, dt[i]); if (res[i] != 1) ++anomalies; }
+            ++done;
+        }
+        r.push_back(done); r.push_back(worst); r.push_back(anomalies);
+    }
+    {   // W5: a producer blocked on a full queue; a get frees a slot and close follows at once: a closed queue never holds an item
+        long long worst = 0, anomalies = 0;
+        for (int t = 0; t < trials * 20; ++t) {
+            queue<int, CAP> q; for (size_t i = 0; i < CAP; ++i) q.put(int(i), 0ms);
+            int res = -1; clk::time_point t0; std::atomic<int> ready{0}; long long dt = 0;
+            std::thread th([&] { ready++; res = q.put(777, 2000ms); dt = ms(clk::now() - t0); });
+            while (ready.load() < 1) std::this_thread::yield();
+            std::this_thread::sleep_for(std::chrono::microseconds(300 + 200 * (t % 5)));
+            t0 = clk::now();
+            int v; q.get(v, 0ms); q.close();
+            th.join();
+            worst = std::max(worst, dt);
+            if (q.is_closed() && q.size() != 0) ++anomalies;   // CLOSED is reached only through an empty queue and admits no put
+            // drain what close left
+            std::vector<int> rest; while (q.get(v, 0ms)) rest.push_back(v);
+            bool has777 = false; for (int x : rest) has777 |= (x == 777);
+            if ((res == 1) != has777) ++anomalies;            // accepted item lost, or rejected item delivered
+            if (!q.is_closed() || q.size() != 0) ++anomalies;
+        }
+        r.push_back(trials * 20); r.push_back(worst); r.push_back(anomalies);
+    }
+    return join(r);
+}
+
 #define CAPS(fn) switch (a.at(0)) { case 1: return fn<1>(a); case 2: return fn<2>(a); case 3: return fn<3>(a); case 8: return fn<8>(a); case 96: return fn<96>(a); case 320: return fn<320>(a); default: return std::string("bad-cap"); }
 static std::string handle(const std::string& op, const Args& a)
 {
     if (op == "qseq") { CAPS(seq) }
     if (op == "qmt") { CAPS(mt) }
     if (op == "qtime") { CAPS(timing) }
+    if (op == "qwake") { CAPS(wake) }
     return "bad-op";
 }
 
